@@ -249,7 +249,13 @@ func feparse(c *Ctx) {
 				reps = 25
 			}
 			for k := 0; k < reps; k++ {
-				inf, e2 := parse.PrimaryPackage("go", dir, files)
+				// the file list in another order each time (a different directory enumeration): nothing may depend on it
+				shuffled := append([]string{}, files...)
+				for a := len(shuffled) - 1; a > 0; a-- {
+					b := r.Intn(a + 1)
+					shuffled[a], shuffled[b] = shuffled[b], shuffled[a]
+				}
+				inf, e2 := parse.PrimaryPackage("go", dir, shuffled)
 				if e2 != nil {
 					same = false
 					break
